@@ -15,6 +15,14 @@
                      value -> fields), so that the VALUE a callback receives is an observable.
      checkExpired  : empty table -> freeTimer; else collect ids with Timeout < now (strict),
                      then for each: wait := Handlers[id]; CALL BACK(ErrTimeout); delete.
+   RESTARTS.  A handler of the service panics -> the supervisor restarts the actor -> the
+   producer builds a FRESH Service (empty Handlers, nextId 0, no timer) which receives all
+   later messages.  The replaced Service object is not destroyed: its armed timer lives in the
+   run service the incarnations share and keeps a reference, so its scan goes on completing
+   the requests it left behind (timeout, once each, same goroutine) until its table is empty.
+   Callbacks act through the Service that issued the request.  The model keeps one table for
+   all incarnations, keyed by incarnation * (M+1) + id, and per incarnation the allocator and
+   the timer flag ([focus]).
    Everything runs in the service's own context, one operation at a time; "all schedules" is
    the arbitrary order of the operation list, and the iteration order of the Go map in
    checkExpired is the [hint] argument of [Tick] (every order is reachable by some hint).
@@ -58,10 +66,20 @@ Inductive pmsg :=
 | MEmpty.             (* &EmptyArg{} *)
 
 (* how a response comes about *)
-Inductive kind :=
+Inductive ans :=
 | KAns (code info : Z) (m : pmsg)   (* the peer calls Service.Response(req, code, text info, m) (or completes
                                        the API method with (error text info | nil, m)) *)
 | KRaw (w : wire).                  (* a ServiceResponse with exactly these fields reaches the service *)
+
+(* ... and, as a GHOST, which request the peer is answering: the tag of the request object it
+   holds and hands to Service.Response (the response takes its ReqId and Sender from it), or a
+   negative number when it answers no request it holds (raw responses, ids it never saw).
+   Nothing of the ghost is on the wire; it exists for the clause "the response that answers
+   that very request" (Spec.answers_own). *)
+Inductive kind := K (ghost : Z) (a : ans).
+
+Definition ghost_of (k : kind) : Z := match k with K g _ => g end.
+Definition ans_of (k : kind) : ans := match k with K _ a => a end.
 
 (* a decoded, non-nil message *)
 Inductive val := VHello (i s : Z) | VEmpty.
@@ -93,8 +111,10 @@ Definition encode (code info : Z) (m : pmsg) : wire :=
   if code =? 0 then Wire 0 0 (fst (encode_msg m)) (snd (encode_msg m))
   else Wire code info TyNone (BFields 0 0).
 
-Definition wire_of (k : kind) : wire :=
-  match k with KAns code info m => encode code info m | KRaw w => w end.
+Definition wire_of_ans (a : ans) : wire :=
+  match a with KAns code info m => encode code info m | KRaw w => w end.
+
+Definition wire_of (k : kind) : wire := wire_of_ans (ans_of k).
 
 (* remote.Deserialize(Body, Type) behind deserializeResponse: decoded whenever Type is set, WHATEVER
    the length of the body (zero bytes decode to the message with all fields at their defaults);
@@ -113,6 +133,7 @@ Definition decode_body (t : ty) (b : body) : cls :=
 Definition decode (w : wire) : cls :=
   match w with Wire code info t b => if code =? 0 then decode_body t b else RErr info end.
 
+Definition cls_of_ans (a : ans) : cls := decode (wire_of_ans a).
 Definition cls_of (k : kind) : cls := decode (wire_of k).
 
 (* What user code does: issue a request (its callback, when it runs, executes [prog]),
@@ -130,8 +151,9 @@ Inductive op :=
 | Resp (id : Z) (k : kind)       (* a ServiceResponse{ReqId: id} is processed (by the live incarnation) *)
 | RespNotify                     (* the peer answers a notification through Service.Response: suppressed *)
 | RespNoSender (id : Z)          (* the peer answers a sender-less request: suppressed *)
-| Tick (hint : list Z)           (* the 1s timers fire: checkExpired of every incarnation whose timer is armed *)
-| TickReal (hint : list Z)       (* the real timers are left running until they disarm: two rounds of scans *)
+| Tick (hints : list (list Z))   (* the 1s timers fire: checkExpired of every incarnation whose timer is armed
+                                    (one map-iteration hint per incarnation, oldest first) *)
+| TickReal (hints : list (list Z)) (* the real timers are left running until they disarm: two rounds of scans *)
 | Advance (dt : Z)
 | SetNext (v : Z)                (* test set-up: allocator position, only while nothing is pending *)
 | Via (v : Z)                    (* test set-up: HOW later requests reach the peer (direct PID / node-level
@@ -335,26 +357,32 @@ Section WithMax.
     then let r := check_expired s hint in (fst r, ETick (clock s) :: snd r)
     else (s, [EIdle]).
 
-  (* the timers of the given incarnations, one after the other *)
-  Fixpoint tick_all (s : st) (js : list Z) (hint : list Z) : st * list ev :=
+  (* the timers of the given incarnations, one after the other, each with its own hint *)
+  Fixpoint tick_all (s : st) (js : list Z) (hints : list (list Z)) : st * list ev :=
     match js with
     | [] => (s, [])
     | j :: r =>
-        let r1 := tick (focus s j) hint in
-        let r2 := tick_all (fst r1) r hint in
+        let r1 := tick (focus s j) (hd [] hints) in
+        let r2 := tick_all (fst r1) r (tl hints) in
         (fst r2, snd r1 ++ snd r2)
     end.
 
   (* one second passes: the timer of every incarnation, oldest first (any order is possible in
      reality; the timers of different incarnations do not see each other's tables), then the
      live incarnation is back in focus *)
-  Definition tick_op (s : st) (hint : list Z) : st * list ev :=
-    let r := tick_all s (incs s) hint in (focus (fst r) (cur s), snd r).
+  Definition tick_op (s : st) (hints : list (list Z)) : st * list ev :=
+    let r := tick_all s (incs s) hints in (focus (fst r) (cur s), snd r).
+
+  (* the real timers run until they have disarmed themselves: two rounds of scans (written
+     without [let] on purpose: cheaper conversion checks in Proofs.v) *)
+  Definition tick_real (s : st) (hints : list (list Z)) : st * list ev :=
+    (fst (tick_op (fst (tick_op s hints)) []),
+     snd (tick_op s hints) ++ snd (tick_op (fst (tick_op s hints)) [])).
 
   (* the supervisor restarts the actor: a fresh Service becomes the live incarnation; nothing
      of the old one is touched *)
   Definition crash (s : st) : st * list ev :=
-    (set_cur (focus s (cur s + 1)) (cur s + 1), [ECrash]).
+    (focus (set_cur s (cur s + 1)) (cur s + 1), [ECrash]).
 
   (* between operations the live incarnation is in focus *)
   Definition step (s : st) (o : op) : st * list ev :=
@@ -364,10 +392,7 @@ Section WithMax.
     | RespNotify => (s, [EIdle])
     | RespNoSender _ => (s, [EIdle])
     | Tick h => tick_op s h
-    | TickReal h =>
-        let r1 := tick_op s h in
-        let r2 := tick_op (fst r1) [] in
-        (fst r2, snd r1 ++ snd r2)
+    | TickReal h => tick_real s h
     | Advance dt => (if 0 <=? dt then set_clock s (clock s + dt) else s, [EIdle])
     | SetNext v =>
         (if (0 <=? v) && (v <=? M) && isnil (pending s) then set_next s v else s, [EIdle])
